@@ -27,8 +27,8 @@ def header_box_lines(pf, limit):
     return out
 
 
-def op_alter_bound(img, rng, pf, limit):
-    lv, b, d, ln = rng.choice(header_box_lines(pf, limit))
+def op_alter_bound(img, rng, pf, limit, only_level=None):
+    lv, b, d, ln = rng.choice([x for x in header_box_lines(pf, limit) if only_level is None or x[0] == only_level])
     line = img['header'][ln]
     k = rng.randrange(2)
     dx = pf.dx(lv)[d]
@@ -95,6 +95,12 @@ def run_case(seed, c20=False):
         dist[k] = dist.get(k, 0) + 1
 
     pf = gen.gen_plotfile(rng, max_blocks=2, payload=rng.choice(['ints', 'random', 'special']))
+    rq = random.Random(seed * 6131 + 7)
+    if pf.nlevels >= 2 and rq.random() < (0.5 if pf.nlevels >= 3 else 0.3):
+        # refinement ratios other than 2 (a cell of level 2 is then a sixteenth of a coarse one)
+        pf.ratios = (rq.choice([[4, 4], [4, 4], [4, 4], [2, 4], [4, 2]]) + [2, 4])[:pf.nlevels - 1]
+        pf.meta['ratios'] = list(pf.ratios)
+    count(f"refinement ratios={pf.meta.get('ratios', 'all 2')}")
     nfields = len(pf.fields)
     base = diskimg.image_of(pf)
     finest = pf.nlevels - 1
@@ -142,6 +148,13 @@ def run_case(seed, c20=False):
             d = op_alter_bound(img, rng, pf, limit)
             count('op=alter_bound')
             check_image(out, model, img, pf, limit, nfields, [d], seed, 'c04', coords=True)
+        if 'ratios' in pf.meta:
+            # ... and at the finest level, whose cells are the smallest fraction of a coarse one
+            for i in range(3):
+                img = copy.deepcopy(base)
+                d = op_alter_bound(img, rq, pf, finest, only_level=finest)
+                count('op=alter_bound (finest level, ratios other than 2)')
+                check_image(out, model, img, pf, finest, nfields, [d], seed, 'c04', coords=True)
             out['keys'].append(core.khash(seed, 'b', i))
     return out
 
